@@ -10,7 +10,7 @@ from lib.common import Ctx, Build, Scratch, InfraError, REPO, pmap
 from lib import emusrv, catalog, pv
 from lib.emusrv import Ev, Fin, i32, i64, u32
 from lib.explore import ServerPool, Explorer, Ref, short_hist, binding_cases, bind_shallow
-from checks.c08 import PrefixPool
+from checks.c08 import PrefixPool, PrefixRefused, report_prefix
 
 PAR, RES, PAUSE, RELAX = 1, 2, 4, 8
 NT, NB, NTH = 3, 2, 2
@@ -211,8 +211,9 @@ def module_walk(ctx, build, tier):
 class TaskRef(Ref):
     """nOS-V ('V') or Nanos6 ('6') task events on two running threads of one process."""
 
-    def __init__(self, m, sidx, rows, cpurows, rank, depth):
+    def __init__(self, m, sidx, rows, cpurows, rank, depth, procs=1):
         self.m = m
+        self.procs = procs          # 2: thread k belongs to process k; task ids, types, app id and rank are per process
         self.sidx, self.rows, self.cpurows, self.rank = sidx, rows, cpurows, rank
         self.depth = depth
         if m == "V":
@@ -227,6 +228,9 @@ class TaskRef(Ref):
             self.T = {"task": 35, "gid": 36, "rank": 38, "ss": 37}
             self.neutral = ("6Wt", "6WT", 18)
             self.body_ss = None     # learned
+        if procs == 2:
+            # the same task ids exist independently in both processes: internal id = id + 10 * process
+            self.flags.update({t + 10: f for t, f in list(self.flags.items())})
         self.bm = BodyModel(self.flags)
         self.learn_map = {}
         self._alpha = None
@@ -280,6 +284,8 @@ class TaskRef(Ref):
         if o == "c":
             return ("fail", None, "task id already exists / unknown type")
         t, b = label[2], label[3]
+        if self.procs == 2:
+            t = t + 10 * k
         if t not in self.flags:
             return ("fail", None, "unknown task id")
         if self.m == "V":
@@ -335,16 +341,16 @@ class TaskRef(Ref):
             stk = bs[1][k]
             run = stk[0] if stk and bodies[stk[0]][0] == "R" else None
             vals = {}
-            vals[self.T["task"]] = run[0] if run else 0
+            vals[self.T["task"]] = (run[0] % 10) if run else 0
             if run and ("gid", run[0]) in self.learn_map:
                 vals[self.T["gid"]] = self.learn_map[("gid", run[0])]
             elif not run:
                 vals[self.T["gid"]] = 0
             if "app" in self.T:
-                vals[self.T["app"]] = 1 if run else 0
+                vals[self.T["app"]] = ((k + 1) if self.procs == 2 else 1) if run else 0
             if "body" in self.T:
                 vals[self.T["body"]] = run[1] if run else 0
-            vals[self.T["rank"]] = (self.rank + 1) if run else 0
+            vals[self.T["rank"]] = ((self.rank + k if self.procs == 2 else self.rank) + 1) if run else 0
             top = ss[k][-1] if ss[k] else None
             if top == "N":
                 vals[self.T["ss"]] = self.neutral[2]
@@ -388,7 +394,11 @@ def e2e_walk(ctx, build, scratch, exe, cat, m, tier):
                   Ev(hs, m + "Tc", u32(1, 7)), Ev(hs, m + "Tc", u32(2, 8))]
         if m == "V":
             prefix.append(Ev(hs, "VTC", u32(3, 7)))
-        pp = PrefixPool(pool, prefix)
+        try:
+            pp = PrefixPool(pool, prefix)
+        except PrefixRefused as e:
+            report_prefix(ctx, e, "e2e-" + model, pool.flags, spec)
+            return
         ref = TaskRef(m, sidx, rows=[1, 2], cpurows=[1, 2], rank=rank, depth=2)
         ref.spec = spec
         ex = LearnExplorer(ctx, pp, ref, name="e2e-" + model, report_props={"C07"}, check_time=False,
@@ -416,6 +426,48 @@ def e2e_walk(ctx, build, scratch, exe, cat, m, tier):
         pool.close()
 
 
+def e2e_walk_2p(ctx, build, scratch, exe, cat, m, tier):
+    """Two processes with one thread each: the same task and type ids exist independently in both, with different
+    labels, app ids and ranks; what one process does with its task 1 must not matter to the other's task 1."""
+    model = "nosv" if m == "V" else "nanos6"
+    rank = 2
+    spec = [{"name": "A", "cpus": [(0, 0), (1, 1)],
+             "procs": [{"pid": 100, "app": 1, "threads": [101], "rank": rank, "nranks": 4},
+                       {"pid": 200, "app": 2, "threads": [201], "rank": rank + 1, "nranks": 4}]}]
+    req = {"ovni": cat["ovni"]["version"], model: cat[model]["version"]}
+    system = emusrv.System(spec, require=req)
+    td = system.write(scratch.sub("trace2p-" + model))
+    pool = ServerPool(exe, td, ["-l"])
+    pool.meta = system.meta if "system" in dir() else None
+    try:
+        s = pool.local.streams
+        sidx = [s["loom.A/proc.100/thread.101"], s["loom.A/proc.200/thread.201"]]
+        prefix = [Ev(sidx[0], "OHx", i32(0, 101) + i64(0)), Ev(sidx[1], "OHx", i32(1, 201) + i64(0))]
+        for k, (la, lb) in enumerate(((b"ttype\0", b"utype\0"), (b"xtype\0", b"ytype\0"))):
+            prefix += [Ev(sidx[k], m + "Yc", b"", 1, u32(7) + la), Ev(sidx[k], m + "Yc", b"", 1, u32(8) + lb),
+                       Ev(sidx[k], m + "Tc", u32(1, 7)), Ev(sidx[k], m + "Tc", u32(2, 8))]
+            if m == "V":
+                prefix.append(Ev(sidx[k], "VTC", u32(3, 7)))
+        try:
+            pp = PrefixPool(pool, prefix)
+        except PrefixRefused as e:
+            report_prefix(ctx, e, "e2e-2procs-" + model, pool.flags, spec)
+            return
+        ref = TaskRef(m, sidx, rows=[1, 2], cpurows=[1, 2], rank=rank, depth=1, procs=2)
+        ref.spec = spec
+        ex = LearnExplorer(ctx, pp, ref, name="e2e-2procs-" + model, report_props={"C07"}, check_time=False,
+                           max_depth=(4 if tier == "quick" else 6), max_states=(3000 if tier == "quick" else 40000))
+        st = ex.run()
+        gids = {str(k[1]): v for k, v in ref.learn_map.items()}
+        ctx.part("e2e-2procs-" + model, learned_gid_by_task=gids, states=st["states"], probes=st["probes"])
+        vals = [gids[t] for t in ("1", "2", "11", "12") if t in gids]     # four tasks of four differently labelled types
+        if len(vals) == 4 and len(set(vals)) < 4:
+            ctx.violation("%s, two processes: four different type labels but the timelines show only the values %r" % (model, gids),
+                          {"engine": "E3", "check": "type-distinct-2procs", "model": model}, {"kind": "type-distinct"})
+    finally:
+        pool.close()
+
+
 def run(prop, tier):
     ctx = Ctx("C07", tier, "model_checking")
     scratch = Scratch("C07")
@@ -429,10 +481,16 @@ def run(prop, tier):
                 ctx.cap("end-to-end walk %s not started" % m)
                 continue
             e2e_walk(ctx, build, scratch, exe, cat, m, tier)
+        for m in ("V", "6"):
+            if ctx.out_of_time(0.8):
+                ctx.cap("two-process end-to-end walk %s not started" % m)
+                continue
+            e2e_walk_2p(ctx, build, scratch, exe, cat, m, tier)
         ctx.cov["rule"] = ("(A) task.c/body.c: for every flag combination of three tasks, breadth-first search over the reference body machine, every "
                            "operation x thread x task x body probed in every state, verdict and complete module state compared; (B) real emulator: "
                            "nOS-V (two normal + one parallel task) and Nanos6 task events on two threads, all task/body ids incl. illegal ones, "
-                           "create of existing/unknown ids and one neutral region, verdict = body machine AND region-stack rule, rows compared")
+                           "create of existing/unknown ids and one neutral region, verdict = body machine AND region-stack rule, rows compared; the same on two "
+                           "processes with one thread each, where equal task and type ids are independent and app id, rank and type labels differ")
         ctx.cov["distinct_nontrivial"] = ctx.cov["states"]
         ctx.assumptions += ["reference = DESIGN.md A.4; the state after a refused operation is not explored (the emulator stops there)",
                             "end-to-end: at emulator level execute/end also enter/leave the 'task body' region of the subsystem stack (DESIGN 5, C07)",
